@@ -1,6 +1,7 @@
 """U8 - configuration resolution (acmed/src/config.rs).
 Serves C14 (most specific setting wins, include merge), C19 (hook-group expansion terminates),
 C18 (root certificate list), C10 (hook/group resolution in declaration order), C13 (mode getters)."""
+import re
 from unit import Unit, FnSpec
 
 C = "acmed/src/config.rs"
@@ -277,7 +278,19 @@ pub fn parse_duration(input: &str) -> (r: Result<Duration, Error>)
         u.take(C, t, "config", keep_derives=("Eq", "Hash", "PartialEq", "Clone") if t == "HookType" else ())
     u.raw("config", SPEC)
     u.raw("config", CNF_SHIMS, trusted=True)
-    u.stub(C, "get_cnf_path", "config", fns={"get_cnf_path": FnSpec(ret="r")})
+    from unit import fmt_to_cat
+    def fmt_rw(m):
+        args = [a for a in re.split(r",\s*(?![^()]*\))", m.group("args").lstrip(", ")) if a.strip()] if m.group("args") else []
+        e = fmt_to_cat(m.group("lit"), cat="crate::config::cat2", args=args)
+        return e if e is not None else "crate::opaque_string()"
+    u.verify(C, "get_cnf_path", "config", props=["C14"], fns={"get_cnf_path": FnSpec(ret="r", sig="""
+    ensures
+        // an include is resolved against the directory of the file that names it; an absolute one is taken as it is
+        r matches Ok(v) ==> (is_absolute(file@) ==> paths_text(v@) == glob_files(file@)), //@C14.absolute_includes_are_taken_as_they_are
+        r matches Ok(v) ==> (!is_absolute(file@) && !has_glob_meta(parent_spec(canon(from@))) ==>
+            paths_text(v@) == glob_files(join_spec(parent_spec(canon(from@)), file@))), //@C14.relative_includes_are_resolved_against_the_including_file
+""", rewrites=[("T-ITER", r"glob\((?P<p>[^()]+)\)\?\s*\.filter_map\(Result::ok\)\s*\.collect::<Vec<PathBuf>>\(\)", r"crate::config::glob_readable(glob(\g<p>)?)", None),
+               ("T-FMT", r"format!\((?P<lit>\"[^\"]*\")(?P<args>(?:,\s*[^;]+?)?)\)(?=;)", fmt_rw, None)])})
     c = contracts()
     props = {"C13": ["get_cert_file_mode", "get_pk_file_mode", "get_cert_file_user", "get_cert_file_group", "get_cert_file_ext",
                      "get_pk_file_user", "get_pk_file_group", "get_pk_file_ext"]}
@@ -337,7 +350,52 @@ impl PathBuf {
     pub fn to_path_buf(&self) -> (r: PathBuf) ensures r == *self { unimplemented!() }
     #[verifier::external_body]
     pub fn display(&self) -> Display { unimplemented!() }
+    // PathBuf::pop / push / to_str / is_absolute as documented: pop leaves the parent directory; pushing an absolute path
+    // replaces the whole path, pushing a relative one appends it after a separator
+    #[verifier::external_body]
+    pub fn pop(&mut self) -> (r: bool) ensures final(self)@ == parent_spec(old(self)@) { unimplemented!() }
+    #[verifier::external_body]
+    pub fn push(&mut self, p: &str) ensures final(self)@ == join_spec(old(self)@, p@) { unimplemented!() }
+    #[verifier::external_body]
+    pub fn to_str(&self) -> (r: Option<&str>) ensures r matches Some(s) ==> s@ == self@ { unimplemented!() }
+    #[verifier::external_body]
+    pub fn is_absolute(&self) -> (r: bool) ensures r == is_absolute(self@) { unimplemented!() }
+    #[verifier::external_body]
+    pub fn join(&self, p: &str) -> (r: PathBuf) ensures r@ == join_spec(self@, p@) { unimplemented!() }
+    #[verifier::external_body]
+    pub fn new(s: &str) -> (r: &PathBuf) ensures r@ == s@ { unimplemented!() }
 }
+pub uninterp spec fn parent_spec(p: Seq<char>) -> Seq<char>;
+pub uninterp spec fn is_absolute(p: Seq<char>) -> bool;
+pub open spec fn join_spec(d: Seq<char>, p: Seq<char>) -> Seq<char> {
+    // (a separator is added unless the directory is the root itself - a configuration file directly under `/` is left out of the model)
+    if is_absolute(p) { p } else { d + "/"@ + p }
+}
+// the glob crate: the readable files a pattern matches, in the order glob yields them; characters with a special meaning in
+// a pattern; Pattern::escape gives a pattern that matches the text literally (and is that text when nothing is special in it)
+pub uninterp spec fn glob_files(pattern: Seq<char>) -> Seq<Seq<char>>;
+pub uninterp spec fn has_glob_meta(s: Seq<char>) -> bool;
+pub uninterp spec fn escape_spec(s: Seq<char>) -> Seq<char>;
+pub open spec fn paths_text(v: Seq<PathBuf>) -> Seq<Seq<char>> { v.map_values(|p: PathBuf| p@) }
+pub struct GlobPaths { pub pattern: Ghost<Seq<char>> }
+pub struct PatternError { pub x: u8 }
+impl vstd::std_specs::convert::FromSpecImpl<PatternError> for crate::acme_common::error::Error {
+    open spec fn obeys_from_spec() -> bool { false }
+    open spec fn from_spec(e: PatternError) -> Self { arbitrary() }
+}
+impl From<PatternError> for crate::acme_common::error::Error { #[verifier::external_body] fn from(e: PatternError) -> Self { unimplemented!() } }
+#[verifier::external_body]
+pub fn glob(pattern: &str) -> (r: Result<GlobPaths, PatternError>) ensures r matches Ok(g) ==> g.pattern@ == pattern@ { unimplemented!() }
+// glob(..)?.filter_map(Result::ok).collect::<Vec<PathBuf>>()  (rule T-ITER): the matches that could be read
+#[verifier::external_body]
+pub fn glob_readable(g: GlobPaths) -> (r: Vec<PathBuf>) ensures paths_text(r@) == glob_files(g.pattern@) { unimplemented!() }
+pub struct Pattern { pub x: u8 }
+impl Pattern {
+    #[verifier::external_body]
+    pub fn escape(s: &str) -> (r: String) ensures r@ == escape_spec(s@), !has_glob_meta(s@) ==> r@ == s@ { unimplemented!() }
+}
+#[verifier::external_body]
+pub fn cat2(a: &str, b: &str) -> (r: String) ensures r@ == a@ + b@ { unimplemented!() }
 pub struct BTreeSet<T> { pub v: Vec<T> }
 pub open spec fn paths(s: Seq<PathBuf>) -> Set<Seq<char>> { s.map_values(|p: PathBuf| p@).to_set() }
 impl BTreeSet<PathBuf> {
